@@ -192,7 +192,12 @@ def realize_any(x):
             return {k: realize_any(v) for k, v in x.items()}
         if hasattr(x, '__realize_record__'):
             return x.__realize_record__()
-        return x
+        if type(x) in (int, str, float, bool, bytes, type(None)):
+            return x
+        try:
+            return _core.deep_realize(x)
+        except Exception:
+            return repr(x)
 
 
 # --------------------------------------------------------------------------
